@@ -9,7 +9,8 @@ import vbuild
 import vcheck
 from vcheck import Job
 
-RULE = ("cell = one requested lambda (every integer in [-5,300] plus INT32_MIN/MAX and a few others), per build; the "
+RULE = ("cell = one requested lambda (every integer in [-5,300] plus INT32_MIN/MAX and a few others), per build and per process "
+        "history (none; near-default custom sets imported through tfhe_io first; the other level requested first; a custom key set made, exported and re-imported first); the "
         "observation is the termination status of a forked child and, when it returns, every field of the returned set; "
         "oracle: abort outside 1..128, pinned table equality (80-bit for 1..80, 128-bit for 81..128), README cross-read, "
         "security(returned) >= lambda, structural constraints recomputed independently, >= 12 sigma decoding margin")
@@ -47,6 +48,10 @@ def run(tier, seed, t0):
     jobs = [Job("optim", "drv_c19", "optim", "spqlios-fma", []),
             Job("debug", "drv_c19", "debug", "nayuki-portable", []),
             Job("optim-fftw", "drv_c19", "optim", "fftw", [])]
+    # histories: what the process did before the request (imports of near-default custom sets, other requests, key sets)
+    for h in (1, 2, 3, 4):
+        jobs.append(Job("optim-history%d" % h, "drv_c19", "optim", "spqlios-fma", ["--history", h, "--lo", -2, "--hi", 140]))
+    jobs.append(Job("debug-history1", "drv_c19", "debug", "nayuki-portable", ["--history", 1, "--lo", 70, "--hi", 135]))
     results = vcheck.run_jobs(jobs)
     viols, inconclusive = vcheck.collect_violations(results)
     agg = vcheck.aggregate(results)
@@ -66,7 +71,7 @@ def run(tier, seed, t0):
     margin_tab = {}
     for r in results:
         obs = r.by_type("lambda")
-        if len(obs) < 300:
+        if len(obs) < (300 if "history" not in r.job.name else 60):
             inconclusive.append("job %s observed only %d lambdas" % (r.job.name, len(obs)))
         for o in obs:
             lam = o["lambda"]
